@@ -8,9 +8,9 @@ import Pacti.Props.C04
 instantiated with the modelled polyhedral primitives running on an LP oracle `O`.
 
 `compose_sound_poly_partial` is the statement of the property for every wiring, kept set and flag, and for every
-tactic order built from the tactics whose soundness is a theorem (2, 5, 6; see C04).  The full statement — any
+tactic order built from the tactics whose soundness is a theorem (2, 4, 5, 6; see C04).  The full statement — any
 order — is `compose_sound_poly_any_sound_table`, which is proved for any tactic TABLE that is sound on the
-order used; for tactics 1, 3 and 4 of the real table soundness is established per run by the certified judge.
+order used; for tactics 1 and 3 of the real table soundness is established per run by the certified judge.
 -/
 namespace Pacti.C01
 open PolyAlg
@@ -26,7 +26,7 @@ theorem compose_sound_poly_any_sound_table (O : Oracle) (hO : O.Certified) (tie 
 
 /-- the real tactic table, orders over the tactics proved sound -/
 theorem compose_sound_poly_partial (O : Oracle) (hO : O.Certified) (tie : PTerm → Bool) (hint : PTerm → TL → Bool → Option (List Nat))
-    (c1 c2 c : Contract PTerm) (keep : List Var) (simp : Bool) (ord : List Nat) (hord : ∀ j ∈ ord, j ∈ [2, 5, 6])
+    (c1 c2 c : Contract PTerm) (keep : List Var) (simp : Bool) (ord : List Nat) (hord : ∀ j ∈ ord, j ∈ [2, 4, 5, 6])
     (h : compose (polyPrims O tie false (realTac O false hint)) c1 c2 keep simp ord = .ok c) :
     ∀ v, TL.holds c.a v → (TL.holds c1.a v → TL.holds c1.g v) → (TL.holds c2.a v → TL.holds c2.g v) →
       TL.holds c1.a v ∧ TL.holds c2.a v ∧ TL.holds c.g v :=
